@@ -24,7 +24,7 @@ using vh::Case; using vh::Result; using vh::Ctx;
 
 static bool make_tree(const Case& c, tp::Built& t, tp::Stats& st, bool& intended_known) {
   intended_known = false;
-  if (c.campaign == "DEC") {
+  if (c.campaign == "DEC" || c.campaign == "RC") {
     struct cbor_load_result res;
     t.item = cbor_load(c.data.data(), c.data.size(), &res);
     return t.item != nullptr;
